@@ -6,9 +6,10 @@ use crate::engine::{Ctx, RunResult};
 use crate::worlds::{d, e, f};
 
 pub fn run(ctx: &mut Ctx) -> RunResult {
-    match ctx.ch.weighted("cfg.world", &[2, 1, 1]) {
+    match ctx.ch.weighted("cfg.world", &[4, 2, 2, 1]) {
         0 => d::run(ctx, d::DMode::C18),
         1 => e::run(ctx, e::EMode::C18),
-        _ => f::run(ctx, f::FMode::C18),
+        2 => f::run(ctx, f::FMode::C18),
+        _ => d::run_c18_edge(ctx),
     }
 }
